@@ -5,11 +5,13 @@
 package c08
 
 import (
+	"bytes"
 	"crypto/sha256"
 	"encoding/hex"
 	"encoding/json"
 	"errors"
 	"fmt"
+	"github.com/invopop/gobl/c14n"
 	"math/rand"
 	"os"
 	"path/filepath"
@@ -77,6 +79,7 @@ type base struct {
 	docIdx int
 	digest string  // head.dig.val
 	gdoc   *c07.JV // json.Marshal(e.Document) as GOBL sees it, normalised
+	text   string  // the genuine envelope text
 }
 
 var (
@@ -310,6 +313,7 @@ type outcome struct {
 	newSameAsOld bool   // … equals the base digest
 	newDocSame   bool   // the recalculated document has the base's content
 	marshalled   string // json.Marshal(e.Document) before Calculate
+	reload       string // "" or how the verdict differs when the text is read into a value that held the genuine envelope before
 }
 
 func present(b *base, text string, recalc bool) (o outcome) {
@@ -338,6 +342,24 @@ func present(b *base, text string, recalc bool) (o outcome) {
 	}
 	if o.class == "parse-error" {
 		return
+	}
+	// the verdict belongs to the text: a value that held the genuine envelope before (a reused,
+	// pooled or cached object) must judge the text exactly like a fresh one
+	if b.text != "" && b.text != text {
+		_ = core.Protect(func() {
+			reused := new(gobl.Envelope)
+			if json.Unmarshal([]byte(b.text), reused) != nil {
+				return
+			}
+			if err := json.Unmarshal([]byte(text), reused); err != nil {
+				o.reload = "a reused value refuses the text a fresh one reads: " + err.Error()
+				return
+			}
+			ok2 := reused.Validate() == nil
+			if ok2 != (o.class == "validates") {
+				o.reload = fmt.Sprintf("a fresh value says %s, a value that held the genuine envelope before says validates=%v", o.class, ok2)
+			}
+		})
 	}
 	p = core.Protect(func() {
 		if env.Head != nil && env.Head.Digest != nil && env.Document != nil {
@@ -412,7 +434,7 @@ func loadBase(name, text string) (*base, string) {
 	if err != nil {
 		return nil, err.Error()
 	}
-	return &base{name: name, env: tree, doc: doc, docIdx: di, digest: env.Head.Digest.Value, gdoc: c07.Norm(g)}, ""
+	return &base{name: name, env: tree, doc: doc, docIdx: di, digest: env.Head.Digest.Value, gdoc: c07.Norm(g), text: text}, ""
 }
 
 func lastName(path []string) string {
@@ -459,7 +481,48 @@ func generated() map[string]string {
 		Coordinates: &org.Coordinates{Latitude: f64(40.4168), Longitude: f64(-3.7038)}}}})
 	add("message-crlf", &note.Message{Content: "Payment due within 30 days.\r\nLate payments accrue interest.\nThanks"})
 	_ = bill.Invoice{}
+	// documents whose canonical form has a length at, just below and just above the sizes at which a
+	// hash implementation changes gear (SHA-256 block and padding boundaries, buffer and chunk sizes)
+	for _, n := range []int{119, 120, 128, 4096, 65536, 131072} {
+		for _, dl := range []int{-1, 0, 1} {
+			if msg := sizedMessage(n + dl); msg != nil {
+				add(fmt.Sprintf("message-canonical-size-%d", n+dl), msg)
+			}
+		}
+	}
 	return out
+}
+
+// canonicalDocSize is the length of the canonical JSON of a document as the digest sees it.
+func canonicalDocSize(doc any) int {
+	env, err := gobl.Envelop(doc)
+	if err != nil {
+		return -1
+	}
+	b, err := json.Marshal(env.Document)
+	if err != nil {
+		return -1
+	}
+	cb, err := c14n.CanonicalJSON(bytes.NewReader(b))
+	if err != nil {
+		return -1
+	}
+	return len(cb)
+}
+
+// sizedMessage builds a note/message whose canonical form is exactly n bytes long (nil when n is too small).
+func sizedMessage(n int) *note.Message {
+	m := &note.Message{Title: "Invoice 1001 is due", Content: "x"}
+	m.UUID = "0190f5c1-0003-7000-8000-000000000001"
+	base := canonicalDocSize(m)
+	if base < 0 || base > n {
+		return nil
+	}
+	m.Content = strings.Repeat("x", 1+n-base)
+	if canonicalDocSize(m) != n {
+		return nil
+	}
+	return m
 }
 
 // Run is the C08 sweep.
@@ -722,6 +785,10 @@ func judgeOne(c *core.Ctx, b *base, ec *ecase, o outcome) {
 	if o.class != "digest-error" || len(e.Path) > 2 {
 		c.Sample(map[string]any{"edit": where, "validate": o.class, "detail": short(o.detail), "digest_unchanged": o.digestSame,
 			"after_calculate": map[string]any{"error": short(o.calcErr), "digest_same_as_before": o.newSameAsOld, "content_same_as_before": o.newDocSame}})
+	}
+	if o.reload != "" {
+		c.Fail("", where+": "+o.reload, ec)
+		return
 	}
 	switch {
 	case o.class == "panic":
